@@ -31,3 +31,25 @@ def c05_const_inequality_float_tie(c, k):
     if t == 3:
         return a * a == b * cc
     return False
+
+
+@matcher('c10_proplogic_norm_full_complementary')
+def c10_proplogic_norm_full_complementary(c, k):
+    """proplogic.norm_full collapses a complementary pair A, ~A inside a conjunction (disjunction) to false (true) only for
+    some orders/nestings of the members; otherwise it returns the sorted members.  Covered: the members contain a
+    complementary pair and exactly one of the two normal forms contains the collapsed constant."""
+    if c.get('kind') != 'conv-canonical:proplogic.norm_full':
+        return False
+    ms = set(c.get('members', []))
+    comp = any(('~' + m) in ms for m in ms)
+    const, sep = ('false', ' & ') if c.get('fam') == 'conj' else ('true', ' | ')
+    has = lambda nf: const in nf.split(sep)
+    return comp and has(c.get('nf1', '')) != has(c.get('nf2', ''))
+
+
+@matcher('c10_int_norm_conv_eval_differs')
+def c10_int_norm_conv_eval_differs(c, k):
+    """integer.int_norm_conv.eval (from_poly(convert_to_poly t)) and its proof term (simp_full + rewrites) produce
+    different normal forms or eval fails (int_power arity) although a proof term exists.  Both equations are checked for
+    validity separately by the harness (kind conv-eval-invalid / conv-invalid), so only the *disagreement in form* is covered here."""
+    return c.get('kind') == 'conv-eval:integer.int_norm_conv'
